@@ -5,7 +5,7 @@ Files only they changed are copied; files both changed go through `git merge-fil
 import sys, os, subprocess, filecmp, shutil
 n = sys.argv[1]; dry = "--dry" in sys.argv
 BASE, THEIRS, OURS = os.environ.get("WS_BASE", "/var/tmp/base"), f"/var/tmp/w{n}/verif", os.environ.get("WS_OURS", "/verif")
-SKIP_DIRS = {".git", ".cache", ".lake", "replays", "evidence", "__pycache__"}
+SKIP_DIRS = {".git", ".cache", ".lake", "replays", "evidence", "__pycache__", "target"}
 SKIP_FILES = {".git", "DESIGN.md", "MANIFEST.json", "Cargo.lock", "config.toml", "Cargo.toml", "known_findings.json"}
 def files(root):
     out = set()
